@@ -139,3 +139,44 @@ REG.contract(
     note="query_result: which outcomes end the resolution, which drop the server for good (never asked again), which arm the "
          "single TCP retry, and that answers are cached under (qname, rdtype, rdclass)",
 )
+
+
+# ----------------------------------------------------------------------------- candidate names: search list and ndots
+from contracts.name import NAME, ISABS  # noqa: E402
+
+_LEQ = lambda a, b: f"(len({a}.labels) == len({b}.labels) and all({a}.labels[k] == {b}.labels[k] for k in range(len({a}.labels))))"
+# x is qname followed by the labels of s
+_CAT = lambda x, s: (f"(len({x}.labels) == len(qname.labels) + len({s}.labels) "
+                     f"and all({x}.labels[k] == qname.labels[k] for k in range(len(qname.labels))) "
+                     f"and all({x}.labels[len(qname.labels) + k] == {s}.labels[k] for k in range(len({s}.labels))))")
+_ABSQ = lambda x: (f"(len({x}.labels) == len(qname.labels) + 1 and {x}.labels[len(qname.labels)] == b'' "
+                   f"and all({x}.labels[k] == qname.labels[k] for k in range(len(qname.labels))))")
+_SEARCHING = "(search if search is not None else self.use_search_by_default)"
+_ND = "(1 if self.ndots is None else self.ndots)"
+for _n in (0, 1, 2):
+    _res = T.obj("dns.resolver.BaseResolver", raw=True, use_search_by_default=T.bool, search=T.fixed(*([NAME] * _n)),
+                 domain=T.const(None), ndots=T.opt(T.range(0, 15)))
+    _first_abs = f"(len(qname.labels) > {_ND})"
+    _ens = [
+        f"(not {ISABS('qname')}) or (len(result) == 1 and result[0] is qname)",
+        f"({ISABS('qname')}) or {_SEARCHING} or (len(result) == 1 and {_ABSQ('result[0]')})",
+        f"({ISABS('qname')}) or (not {_SEARCHING}) or len(result) == {_n + 1}",
+        # enough dots: the absolute name first, then the search list in order
+        f"({ISABS('qname')}) or (not {_SEARCHING}) or (not {_first_abs}) or ({_ABSQ('result[0]')}"
+        + "".join(f" and {_CAT(f'result[{j + 1}]', f'self.search[{j}]')}" for j in range(_n)) + ")",
+        # fewer dots than ndots: the search list first, the absolute name last
+        f"({ISABS('qname')}) or (not {_SEARCHING}) or {_first_abs} or ({_ABSQ(f'result[{_n}]')}"
+        + "".join(f" and {_CAT(f'result[{j}]', f'self.search[{j}]')}" for j in range(_n)) + ")",
+    ]
+    REG.contract(
+        f"dns.resolver.BaseResolver._get_qnames_to_try#search{_n}",
+        target="dns.resolver.BaseResolver._get_qnames_to_try", verify_only=True,
+        params={"self": _res, "qname": NAME, "search": T.opt(T.bool)},
+        requires=[ISABS(f"self.search[{j}]") for j in range(_n)],
+        raises=[("dns.name.NameTooLong", "True", "may")],
+        ensures=_ens,
+        props=["C16"],
+        note=f"candidate names for a search list of {_n} suffix(es) (the loop over the list is a uniform append, so each length is "
+             "the same argument): absolute names are tried alone; otherwise the absolute form comes first exactly when the name has "
+             "more labels than ndots (default 1, 0 allowed), else last, with the suffixed names in list order in between",
+    )
